@@ -18,7 +18,9 @@
 EXTENDS Database, TLC
 
 CONSTANTS Cl, Pws, Caps, Pwds, MQ, MaxIds, MaxDepth,
-          WTick, WData   \* weights (number of copies) of the tick and backup/restore steps: simulation only
+          \* shaping of the simulated behaviours only (all 1 in the exhaustive configurations):
+          WTick, WData, WConn, \* number of copies of the tick, backup/restore and right-password connect steps
+          DisruptEvery         \* disruptive steps (power off, stop, block, uninstall, delete, forged id) only every k-th step
 
 VARIABLES act, n
 mvars == <<dvars, act, n>>
@@ -35,6 +37,7 @@ Init ==
     /\ \E p \in Pws, cap \in Caps : DbInit(p, cap, Cl, P0, TRUE, TRUE, [c \in Cl |-> TRUE], TRUE)
 
 Step(a) == n < MaxDepth /\ n' = n + 1 /\ act' = a
+Disrupt == n % DisruptEvery = 0
 
 -----------------------------------------------------------------------------
 (* the design *)
@@ -112,7 +115,7 @@ MConnect(c, pwd) ==
     /\ Connect(c, pwd, ConnectAllowed(c, pwd), DConnectSt(c, pwd), DConnectP(c, pwd))
 
 MQuery(c, id, q) ==
-    /\ c \in inst /\ id <= Len(owner)
+    /\ c \in inst /\ id <= Len(owner) /\ (id = 0 => Disrupt)
     /\ Step(Act("Query", [c |-> c, id |-> id, q |-> q]))
     /\ Query(c, id, q, DRan(c, id), DQOk(c, id, q), DQueryP(c, id, q))
 
@@ -122,11 +125,12 @@ MDisconnect(c, id) ==
     /\ Disconnect(c, id, TRUE, DDisconnectP(c, id))
 
 MUninstall(c) ==
-    /\ c \in inst
+    /\ c \in inst /\ Disrupt
     /\ Step(Act("ClientUninstall", [c |-> c]))
     /\ ClientUninstall(c, TRUE, DUninstallP(c))
 
 MSvc(kind) ==
+    /\ kind \in {"stop", "pause", "restart", "fix"} => Disrupt
     /\ Step(Act("SvcReq", [kind |-> kind]))
     /\ SvcReq(kind, DSvcOk(kind), DSvcP(kind))
 
@@ -134,25 +138,30 @@ MBackup  == Step(Act("Backup", NoArgs))  /\ Backup(DBackupOk, DBackupP)
 MRestore == Step(Act("Restore", NoArgs)) /\ Restore(DRestoreOk, DRestoreP)
 
 MPower(node, on) ==
+    /\ ~on => Disrupt
     /\ Step(Act("Power", [kind |-> node, on |-> on]))
     /\ Power(node, on, DPowerOk(node, on), DPowerP(node, on))
 
 MBlock(c) ==
+    /\ reach[c] => Disrupt
     /\ Step(Act("Block", [c |-> c, on |-> reach[c]]))
     /\ Block(c, reach[c], Cur)
 
 MBlockBk ==
+    /\ bkPath => Disrupt
     /\ Step(Act("BlockBk", [on |-> bkPath]))
     /\ BlockBk(bkPath, Cur)
 
 MTick == Step(Act("Tick", NoArgs)) /\ Tick(DTickP)
 
 MFs(kind) ==
+    /\ kind = "delete" => Disrupt
     /\ Step(Act("FsOp", [kind |-> kind]))
     /\ FsOp(kind, DFsOk(kind), DFsP(kind))
 
 Next ==
     \/ \E c \in Cl, pwd \in Pwds : MConnect(c, pwd)
+    \/ \E c \in Cl, w \in 2..WConn : MConnect(c, pw)
     \/ \E c \in Cl, id \in 0..MaxIds, q \in MQ : MQuery(c, id, q)
     \/ \E c \in Cl, id \in 1..MaxIds : MDisconnect(c, id)
     \/ \E c \in Cl : MUninstall(c)
